@@ -614,3 +614,57 @@ class Observer(Monitor):
                      'board_count', 'total_pot_amount'):
             ask(lambda n=name: getattr(s, n))
         ctx.counters['observer_queries'] += calls
+
+
+class Interleaver(Monitor):
+    """Another table in the same process: at a share of the decision points
+    of the monitored hand a second, unrelated State (other game, other
+    players) is created and/or advanced by a few operations.  Like the
+    Observer it asserts nothing: the monitored hand must not notice.  This
+    reaches state shared between State instances (class-level containers,
+    module-level memos keyed too coarsely)."""
+
+    name = 'interleaver'
+
+    def __init__(self, p=0.08):
+        self.p = p
+
+    def on_begin(self, ctx):
+        self.rng = random.Random((ctx.cfg['seed'] << 3) ^ 0x17e4)
+        self.active = self.rng.random() < 0.5
+        self.other = None
+        self.pol = None
+
+    def on_decision(self, ctx, s, avail):
+        if not self.active or self.rng.random() > self.p:
+            return
+        ctx.counters['interleave_points'] += 1
+        key = load.SHUFFLE_KEY[0]
+        try:
+            with warnings.catch_warnings():
+                warnings.simplefilter('ignore')
+                self._advance(ctx)
+        except Exception:     # noqa: BLE001  (the other table is no oracle)
+            self.other = None
+        finally:
+            load.SHUFFLE_KEY[0] = key
+
+    def _advance(self, ctx):
+        rng = self.rng
+        if self.other is None or not self.other.status:
+            cfg = gen.gen_config(
+                rng, customs=('kuhn', 'draw5', 'stud5', 'greek', 'plo8',
+                              'badugi1', 'random'), p_custom=0.3,
+                max_boards=2, auto_styles=('any', 'all', 'none'))
+            load.set_shuffle_key(cfg['seed'])
+            self.other = gen.build_state(cfg)
+            self.pol = gen_policy(rng)
+            ctx.counters['interleaved_states_created'] += 1
+        o = self.other
+        for _ in range(rng.randint(1, 8)):
+            av = available(o)
+            if not av:
+                break
+            name, args = choose(o, av, rng, self.pol)
+            getattr(o, name)(*args)
+            ctx.counters['interleaved_operations'] += 1
